@@ -222,6 +222,11 @@ var Templates = []Template{
 	{"for-test", "(cond (== n 0) false (begin (def c 0) (for [(def i 0) (and (< i 1) (not CALL)) (set i (+ i 1))] (set c (+ c 1))) c))", false},
 	{"for-step", "(cond (== n 0) 0 (begin (def c 0) (for [(def i 0) (< i 1) (set i (+ 1 CALL))] (set c (+ c 1))) c))", false},
 	{"for-body-last", "(cond (== n 0) 0 (begin (def c 0) (for [(def i 0) (< i 2) (set i (+ i 1))] (set c (+ c 1)) CALL) c))", false},
+	{"for-body-last-for-in-tail-position", "(cond (== n 0) 0 (for [(def i 0) (< i 2) (set i (+ i 1))] (trace n i) CALL))", false},
+	{"for-init-for-in-tail-position", "(cond (== n 0) 0 (for [(def i CALL) (< i 1) (set i (+ i 1))] (trace n i)))", false},
+	{"for-test-for-in-tail-position", "(cond (== n 0) false (for [(def i 0) (and (< i 1) (not CALL)) (set i (+ i 1))] (trace n i)))", false},
+	{"for-step-for-in-tail-position", "(cond (== n 0) 0 (for [(def i 0) (< i 1) (set i (+ 1 CALL))] (trace n i)))", false},
+	{"for-in-let-in-tail-position", "(cond (== n 0) 0 (let [q n] (for [(def i 0) (< i 2) (set i (+ i 1))] (trace q i) CALL)))", false},
 	{"fn-body", "(cond (== n 0) 0 ((fn [] CALL)))", false},
 	{"wrong-arity", "(cond (== n 0) 0 (f (- n 1) a 99))", false},
 	{"too-few-args", "(cond (== n 0) 0 (f (- n 1)))", false},
